@@ -20,6 +20,25 @@ def replay(rec, repo, seed):
     return script_replay('replay/train.py', default_fn='C03')({'fn': ':C03'}, repo, seed)
 
 
+PID = 'C03'
+
+MW_READS = [('lib_trainer/detection_rules/alpha_detection.py', 'alpha_detection', ['multiword_detector']),
+            ('lib_trainer/detection_rules/alpha_detection.py', 'detect_alpha', ['multiword_detector']),
+            ('lib_trainer/detection_rules/multiword_detector.py', 'MultiWordDetector.parse'),
+            ('lib_trainer/detection_rules/multiword_detector.py', 'MultiWordDetector._identify_multi'),
+            ('lib_trainer/detection_rules/multiword_detector.py', 'MultiWordDetector._get_count')]
+
+
+def detector_frame(repo):
+    """segmenting a password only reads the trained multi-word detector (no cache or counter of it is updated): the segmentation of a password does not
+    depend on which passwords were segmented before"""
+    from pyvc import effects as _eff
+    recs = _eff.readonly_frame(repo, MW_READS, tag='detector.readonly', immutable_params=('section', 'alpha_string'))
+    for r in recs:
+        r['name'] = '%s.' % PID + r['name']
+    return recs
+
+
 PROP = Prop(
     'C03', 'Every supported training password is reproduced by the trained grammar',
     functions=[
@@ -35,6 +54,7 @@ PROP = Prop(
         (M + '_recursive_guesses', ge.install), (M + '_are_you_my_child', None), (M + 'find_children', None),
     ],
     lemmas=lambda: td.a_first_stable.lemmas() + td.a_end_stable.lemmas() + ge.catvals_split.lemmas() + gld.groups_desc.lemmas() + gld.firstm_stable.lemmas() + gl.all_c02_lemmas(),
+    effects=detector_frame,
     level='other',
     replay=replay,
     bounded=[Bounded('C03.bounded.train', 'replay/train.py', args=['--fn', 'C03'],
